@@ -71,6 +71,7 @@ void per_column_type(ReplayCtx& ctx, const std::string& cn) {
 int main(int argc, char** argv) {
   ReplayCtx ctx = replay_setup(argc, argv);
   if (const char* e = std::getenv("VF_P")) g_p = std::atoi(e);
+  if (std::getenv("VF_LOGMAT")) g_log_matrices = true;
 #ifndef VF_Z2
 #define VF_Z2 1
 #endif
